@@ -64,7 +64,7 @@ def _tasks(tier, seed):
     for n_pre in L.N_PRE:
       for n_test in L.N_TEST:
         for n_cool in L.N_COOL:
-          for cost in L.COSTS:
+          for cost in L.COSTS + ('control_dark',):
             # 5 of 8 slots go to frames without extra dates
             j = (0, 1, 5, 2, 3, 6, 4, 0, 7, 1)[i % 10]
             i += 1
